@@ -214,6 +214,8 @@ def cellsize_binding(prog, rep, public, path, f0, kern, params, expect):
                 except AnalysisIncomplete:
                     pass
     want_env = {'cellsize_x': Rat.sym('cellsize_x'), 'cellsize_y': Rat.sym('cellsize_y')}
+    if expect is None:
+        return vals         # the caller reads the roles off the bound values
     for p, text in expect.items():
         want = Spec(prog, want_env).expr(text)
         got = vals.get(p)
@@ -233,7 +235,21 @@ def check_slope(prog, rep):
     yv, xv, data, stores = stencil_facts(rep, 'C08', pub, kern, k, 'slope')
     entry = 'slope[numpy]'
     cs = [p for p in kern.params if p != data]
+    # which kernel parameter is the x cell size and which the y cell size: by what the public function passes down
+    # (names and positions of the kernel's parameters do not matter)
+    vals = cellsize_binding(prog, rep, pub, path, f0, kern, kern.params, None) or {}
+    px = [p for p, v in vals.items() if isinstance(v, Rat) and v == Rat.sym('cellsize_x') and p in kern.params]
+    py = [p for p, v in vals.items() if isinstance(v, Rat) and v == Rat.sym('cellsize_y') and p in kern.params]
+    okb = len(px) == 1 and len(py) == 1
+    rep.add('S7-bind', kern, entry, 'kernel parameters for the cell sizes: x -> %s, y -> %s' % (px, py), path.call.lineno, okb,
+            'one parameter of %s must receive the x cell size and one the y cell size of the raster resolution' % kern.qualname)
+    rep.add('S7-bind', kern, entry, 'no other parameter depends on the resolution', path.call.lineno,
+            okb and not [p for p, v in vals.items() if p in kern.params and p not in px + py + [data] and isinstance(v, Rat) and
+                         (Rat.sym('cellsize_x') in [Rat.atom(a) for a in v.atoms()] or Rat.sym('cellsize_y') in [Rat.atom(a) for a in v.atoms()])], '')
     sp = Spec(prog, spec_env(data, yv, xv, kern.params))
+    if okb:
+        sp.it.env['cellsize_x'] = Rat.sym(px[0])
+        sp.it.env['cellsize_y'] = Rat.sym(py[0])
     sp.run(SPEC_GRAD)
     want = sp.expr('arctan(sqrt((dz_dx / (8 * cellsize_x)) ** 2 + (dz_dy / (8 * cellsize_y)) ** 2)) * (180 / pi)'
                    .replace('pi', 'PI__'))if False else None
@@ -249,8 +265,6 @@ def check_slope(prog, rep):
                 'differences); got %s' % show(s.value, 300))
         rep.add('L-unguarded', kern, entry, norm(s.node), s.node.lineno, not s.guards,
                 'slope is defined for every interior cell; store is guarded by %s' % [cond_repr(g)[:80] for g in s.guards])
-    cellsize_binding(prog, rep, pub, path, f0, kern, kern.params,
-                     {'cellsize_x': 'cellsize_x', 'cellsize_y': 'cellsize_y'})
     return kern
 
 
